@@ -369,6 +369,17 @@ func checkC18(c *Ctx) *report.Result {
 				continue
 			}
 			n0++
+			// a trigger of the stopped channel leaves wave RAM alone (the retrigger corruption belongs to a playing channel)
+			trig := c.evalDecoder(true, 0xFF1E, 0xFF1E, setup, ai.WithBit(ai.NewSymInt(8, false, c.W.ParamSym(c.decoderFn(true), 2)), 7, true))
+			for cell := range trig.Stores {
+				if arr != "" && strings.HasPrefix(cell, arr) && len(bad) < 3 {
+					var names []string
+					for i, k := range cells {
+						names = append(names, fmt.Sprintf("%s=%v", c.cellLabel(k), v>>uint(i)&1 == 1))
+					}
+					bad = append(bad, fmt.Sprintf("with %s (NR52 bit 2 = 0) an NR34 trigger stores into %s", strings.Join(names, ", "), cell))
+				}
+			}
 			same, n, got := c.readReturnsLoadedByte(0xFF30, 0xFF3F, setup)
 			if !same || n != 1 {
 				var names []string
@@ -380,7 +391,9 @@ func checkC18(c *Ctx) *report.Result {
 				}
 			}
 		}
-		r.Ob("M-wave", len(bad) == 0 && n0 > 0, "wave RAM read returns the stored byte whenever NR52 reports channel 3 off", handlerPos(probe), fmt.Sprintf("%d flag valuations with NR52 bit 2 = 0 examined; %s", n0, strings.Join(bad, "; ")))
+		r.Ob("M-wave", len(bad) == 0 && n0 > 0, "wave RAM is plain and untouched by a trigger whenever NR52 reports channel 3 off", handlerPos(probe), fmt.Sprintf("%d flag valuations with NR52 bit 2 = 0 examined; %s", n0, strings.Join(bad, "; ")))
 	}
+	r.Rule("M-status", "NR52 bits 0-3 are the channel status as C19 decides it (S-on, S-dac, S-power, S-sweep, S-length re-stated)")
+	adopt(r, c.sibling("C19"), map[string]string{"S-on": "M-status", "S-dac": "M-status", "S-power": "M-status", "S-sweep": "M-status", "S-length": "M-status"}, "a channel left on or off against the documented causes makes NR52 read a wrong status bit")
 	return r
 }
